@@ -11,6 +11,7 @@ package p19
 
 import (
 	"encoding/hex"
+	"math"
 	"strings"
 	"unicode/utf8"
 
@@ -154,8 +155,11 @@ type HCtx struct {
 	Fields map[string]any `json:"fields,omitempty"` // plain JSON-like values
 	KV     []HKV          `json:"kv,omitempty"`
 	Nest   []Nest         `json:"nest,omitempty"`
-	WideN  int            `json:"wide_n,omitempty"` // WideN extra keys k0..kN-1 = i
-	ListN  int            `json:"list_n,omitempty"` // key "l" = list of ListN numbers
+	// Special sets keys to values that JSON cannot carry but the protobuf wire format can:
+	// "nan" | "inf" | "-inf" (NumberValue), "list-nan" (list [1, NaN]), "struct-nan" ({"a": NaN}).
+	Special map[string]string `json:"special,omitempty"`
+	WideN   int               `json:"wide_n,omitempty"` // WideN extra keys k0..kN-1 = i
+	ListN   int               `json:"list_n,omitempty"` // key "l" = list of ListN numbers
 
 	built *structpb.Struct // expansion, shared by every message that uses this recipe (bounds harness memory)
 }
@@ -168,6 +172,9 @@ func (c *HCtx) features(into map[string]bool) {
 		if n.Depth >= 100 {
 			into["ctx-deep"] = true
 		}
+	}
+	if len(c.Special) > 0 {
+		into["ctx-nan-inf"] = true
 	}
 	if c.WideN >= 100 || c.ListN >= 100 {
 		into["ctx-wide"] = true
@@ -260,6 +267,21 @@ func (n Nest) build() *structpb.Value {
 	return cur
 }
 
+func specialValue(kind string) *structpb.Value {
+	nan := structpb.NewNumberValue(math.NaN())
+	switch kind {
+	case "inf":
+		return structpb.NewNumberValue(math.Inf(1))
+	case "-inf":
+		return structpb.NewNumberValue(math.Inf(-1))
+	case "list-nan":
+		return structpb.NewListValue(&structpb.ListValue{Values: []*structpb.Value{structpb.NewNumberValue(1), nan}})
+	case "struct-nan":
+		return structpb.NewStructValue(&structpb.Struct{Fields: map[string]*structpb.Value{"a": nan}})
+	}
+	return nan
+}
+
 func itoa(i int) string {
 	if i == 0 {
 		return "0"
@@ -300,6 +322,9 @@ func (c *HCtx) Struct() *structpb.Struct {
 	}
 	for _, n := range c.Nest {
 		st.Fields[n.Key] = n.build()
+	}
+	for k, kind := range c.Special {
+		st.Fields[k] = specialValue(kind)
 	}
 	wn := c.WideN
 	if wn > 50000 {
